@@ -30,12 +30,27 @@ def gif(n):
 
 
 def run_one(case, cached):
+    import os
+    from term_image.image import common as _common
     img = gif(case["frames"])
-    image = STYLES[case["style"]](img, width=4)
-    it = ImageIterator(image, case["repeat"], "", cached)
+    saved_ts = _common.get_terminal_size
+    _common.get_terminal_size = lambda: os.terminal_size((80, 30))
+    # "dyn": the image keeps its default DYNAMIC size (follows the terminal size)
+    image = STYLES[case["style"]](img) if case.get("dyn") else STYLES[case["style"]](img, width=4)
+    try:
+        it = ImageIterator(image, case["repeat"], case.get("spec", ""), cached)
+    except Exception as e:  # noqa: BLE001
+        _common.get_terminal_size = saved_ts
+        img.close()
+        return [["ctor", type(e).__name__]]
     out, started = [], False
     try:
         for o in case["ops"]:
+            if o[0] == "term":  # the terminal is resized
+                cols, lines = o[1]
+                _common.get_terminal_size = lambda cols=cols, lines=lines: os.terminal_size((cols, lines))
+                out.append(["K"])
+                continue
             if o[0] == "next":
                 try:
                     fr = next(it)
@@ -43,6 +58,8 @@ def run_one(case, cached):
                     out.append(["F", hashlib.sha1(fr.encode()).hexdigest()[:16], image.tell(), it.loop_no])
                 except StopIteration:
                     out.append(["S", it.loop_no])
+                except Exception as e:  # noqa: BLE001 — e.g. a frame that does not fit the padding
+                    out.append(["E", type(e).__name__])
             elif o[0] == "size":
                 image.set_size(width=o[1][0])
                 out.append(["K"])
@@ -58,6 +75,7 @@ def run_one(case, cached):
     finally:
         it.close()
         img.close()
+        _common.get_terminal_size = saved_ts
     return out
 
 
